@@ -400,10 +400,14 @@ Definition lint_report (data : list (list int)) : N * list N :=
 (* ------------------------------------------------------------------ language server call sites *)
 
 Record wcase := {
+  wc_kind : N;                          (* 0 = call sites; 1 = documents opened / workspace loaded, then linted *)
+  wc_client : N;                        (* 0 = generic, 1 = VS Code *)
   wc_root : str; wc_uris : list str; wc_ignore : list str;
   wc_cols : list str; wc_table : table;
-  wc_ignored : list bool;               (* LanguageServer.ignoreURI per URI *)
-  wc_modules : option (list str) }.     (* keys of LanguageServer.getFilteredModules (sorted), None = error *)
+  wc_root_path : str;                   (* LanguageServer.workspacePath() = uri.ToPath(client, root) *)
+  wc_paths : list str;                  (* uri.ToPath(client, uri) per URI *)
+  wc_ignored : list bool;               (* kind 0: LanguageServer.ignoreURI per URI; kind 1: NOT among the files to lint *)
+  wc_modules : option (list str) }.     (* kind 0: keys of LanguageServer.getFilteredModules (sorted), None = error *)
 
 Fixpoint bool_list_eqb (a b : list bool) : bool :=
   match a, b with
@@ -412,18 +416,25 @@ Fixpoint bool_list_eqb (a b : list bool) : bool :=
   | _, _ => false
   end.
 
-(* 1 = ignoreURI, 2 = getFilteredModules, 9 = table lacks something *)
+Definition wc_cl (c : wcase) : lsp_client := if N.eqb (wc_client c) 0 then ClientGeneric else ClientVSCode.
+
+(* 3 = uri_to_path vs uri.ToPath, 1 = lsp_ignore_uri vs ignoreURI / the files to lint, 2 = lsp_filtered_modules vs
+   getFilteredModules, 9 = table lacks something *)
 Definition lsp_codes (c : wcase) : list N :=
   let t := wc_table c in
   let ok := tbl_ok t in let m := tbl_match t in
   let root := wc_root c in
+  let cl := wc_cl c in
   if negb (tbl_covers t (wc_cols c) (wc_ignore c)
-                      (map (fun u => go_rel (uri_to_path u) (uri_to_path root)) (wc_uris c) ++
-                       map (fun u => go_rel u root) (wc_uris c)))
+                      (map (fun u => go_rel (uri_to_path cl u) (uri_to_path cl root)) (wc_uris c)))
   then [9] else
-  (if bool_list_eqb (map (lsp_ignore_uri ok m root (wc_ignore c)) (wc_uris c)) (wc_ignored c) then [] else [1]) ++
-  (if opt_eqb (fun a b => set_eq a b && Nat.eqb (length a) (length b))
-              (lsp_filtered_modules ok m root (wc_ignore c) (wc_uris c)) (wc_modules c) then [] else [2]).
+  (if str_eqb (uri_to_path cl root) (wc_root_path c) && list_str_eqb (map (uri_to_path cl) (wc_uris c)) (wc_paths c)
+   then [] else [3]) ++
+  (if bool_list_eqb (map (lsp_ignore_uri ok m cl root (wc_ignore c)) (wc_uris c)) (wc_ignored c) then [] else [1]) ++
+  (if N.eqb (wc_kind c) 0 then
+     if opt_eqb (fun a b => set_eq a b && Nat.eqb (length a) (length b))
+                (lsp_filtered_modules ok m cl root (wc_ignore c) (wc_uris c)) (wc_modules c) then [] else [2]
+   else []).
 
 Fixpoint lsp_failures (cases : list wcase) (i : N) : list N :=
   match cases with
@@ -432,10 +443,13 @@ Fixpoint lsp_failures (cases : list wcase) (i : N) : list N :=
   end.
 
 Definition rd_wcase : rd wcase :=
+  kind <- rd_u8 ;; client <- rd_u8 ;;
   root <- rd_str ;; uris <- rd_list rd_str ;; ign <- rd_list rd_str ;; cols <- rd_list rd_str ;;
-  t <- rd_table ;; ig <- rd_list rd_bool ;; mods <- rd_opt (rd_list rd_str) ;;
-  ret {| wc_root := root; wc_uris := uris; wc_ignore := ign; wc_cols := cols; wc_table := t;
-         wc_ignored := ig; wc_modules := mods |}.
+  t <- rd_table ;; rp <- rd_str ;; paths <- rd_list rd_str ;;
+  ig <- rd_list rd_bool ;; mods <- rd_opt (rd_list rd_str) ;;
+  ret {| wc_kind := kind; wc_client := client;
+         wc_root := root; wc_uris := uris; wc_ignore := ign; wc_cols := cols; wc_table := t;
+         wc_root_path := rp; wc_paths := paths; wc_ignored := ig; wc_modules := mods |}.
 
 Definition lsp_report (data : list (list int)) : N * list N :=
   match rd_list rd_wcase (unpack data) with
